@@ -253,6 +253,18 @@ def run_case(draw, strategies=('ddmin', 'hierarchical', 'hybrid'), jobs=(1, 2, 4
             opts['ignore_output_cc'] = True
         elif draw(st.booleans()):
             opts['match_out_cc'] = 'cc-ok'
+            # the cross check may differ from its golden run in stdout only
+            spec_cc['F'] = draw(st.sampled_from([[1, 'cc-differs\n', 'cc err\n'], [0, 'cc-differs\n', '']]))
+        else:
+            # exact comparison: a difference in one stream only is a difference
+            spec_cc['F'] = draw(st.sampled_from([[1, 'cc-differs\n', 'cc err\n'], [0, 'cc-differs\n', ''],
+                                                 [0, 'cc-ok\n', 'cc err\n']]))
+    if spec_cc is not None and draw(st.integers(0, 2)) == 0:
+        # the main command's --ignore-output says nothing about the cross check
+        for k in ('match_out', 'match_err', 'ignore_out', 'ignore_err'):
+            opts.pop(k, None)
+        opts['ignore_output'] = True
+        mode = 'ignore-output'
     if mutator_subsets:
         opts['extra_argv'] = draw(mutator_options())
     # options that must not influence any property: debugging aids, variable order
